@@ -38,8 +38,19 @@ func init() { logger.InitNop() }
 const (
 	vfSentinelCtl  = "zz-sentinel-ctl"
 	vfSentinelGate = "zz-sentinel-gate"
-	vfBarrierWait  = 120 * time.Second // liveness only; expiry = inconclusive
+	vfBarrierWait  = 40 * time.Second // liveness only; expiry = inconclusive (the work behind a barrier is < 1 ms of CPU)
 )
+
+// once a wait has expired the run is inconclusive anyway: rapid's shrinking attempts must not
+// wait the full bound again and again
+var vfWaitExpired bool
+
+func vfWaitBound() time.Duration {
+	if vfWaitExpired {
+		return time.Second
+	}
+	return vfBarrierWait
+}
 
 // ---------------------------------------------------------------------------------------------
 // ledger (callbacks run on the supervisor's and the rctc's goroutines)
@@ -481,7 +492,8 @@ func TestVerifC20EndToEnd(t *testing.T) {
 			}()
 			select {
 			case <-done:
-			case <-time.After(vfBarrierWait):
+			case <-time.After(vfWaitBound()):
+				vfWaitExpired = true
 				rt.Fatalf("VF-INCONCLUSIVE Supervisor.Close did not return within %v", vfBarrierWait)
 			}
 		}
@@ -505,7 +517,8 @@ func TestVerifC20EndToEnd(t *testing.T) {
 			}
 			select {
 			case syncChan <- kv:
-			case <-time.After(vfBarrierWait):
+			case <-time.After(vfWaitBound()):
+				vfWaitExpired = true
 				rt.Fatalf("VF-INCONCLUSIVE the registry did not take a snapshot within %v", vfBarrierWait)
 			}
 		}
@@ -528,12 +541,13 @@ func TestVerifC20EndToEnd(t *testing.T) {
 			cfg[vfSentinelGate] = vfRender(vfSentinelGate, vfObj{"VfGateA", b})
 			send(cfg)
 			want := map[string]bool{vfSentinelCtl + "=" + b: true, vfSentinelGate + "=" + b: true}
-			deadline := time.After(vfBarrierWait)
+			deadline := time.After(vfWaitBound())
 			for len(want) > 0 {
 				select {
 				case got := <-led.barrier:
 					delete(want, got)
 				case <-deadline:
+					vfWaitExpired = true
 					rt.Fatalf("VF-INCONCLUSIVE sentinels did not report barrier %s within %v (missing %v)", b, vfBarrierWait, want)
 				}
 			}
